@@ -224,6 +224,32 @@ def r17_3(ctx):
     return r
 
 
+def r17_5(ctx):
+    r = Rule("R17.5", "indexing an array type: the element type is taken for the `number` keyword and for numeric literal indices alike (`T[][number]`, `T[][0]`)",
+             "`Ids[0]` resolving to nothing gives `type: []`, which rejects every value")
+    ia = C.role_or_fail(ctx, r, "indexed_access_resolver")
+    if not ia:
+        return r
+    r.saw(ia["path"])
+    found = False
+    for a in walk(ia["body"]):
+        if a.get("k") == "Arm" and pat_str(a["pat"]).startswith("TsArrayType("):
+            found = True
+            forms = set()
+            for x in walk(a):
+                if x.get("k") in ("PPath", "PTupleStruct", "PStruct"):
+                    v = x.get("variant") or (x.get("res") or {}).get("variant")
+                    if v:
+                        forms.add(v)
+            ok = "TsNumberKeyword" in forms and "Number" in forms
+            r.ob("array element access accepts `number` and numeric literals", ok, C.mloc(ia, a),
+                 "index forms %s" % sorted(f for f in forms if f in ("TsNumberKeyword", "Number", "TsLitType", "TsKeywordType")) if ok else
+                 "index forms handled: %s — %s missing" % (sorted(f for f in forms if f.startswith("Ts") or f == "Number"), [f for f in ("TsNumberKeyword", "Number") if f not in forms]))
+    if not found:
+        r.ob("array element access accepts `number` and numeric literals", None, C.mloc(ia, ia), "no TsArrayType arm in the indexed-access resolver: not decided")
+    return r
+
+
 def r17_4(ctx):
     r = Rule("R17.4", "members with the same name are merged whatever their source position: no hash / equality lookup keyed by PropName (its derived Eq and Hash include the span)",
              "`{format: string} | {format(v: Date): string}` emits the key twice and the later entry wins, so one of the two member types is rejected at run time")
@@ -248,7 +274,7 @@ def r17_4(ctx):
 
 def rules(ctx):
     from . import c16
-    return [r17_1, r17_2, r17_3, r17_4, c16.r16_2]
+    return [r17_1, r17_2, r17_3, r17_4, r17_5, c16.r16_2]
 
 
 EXPLANATION = (
